@@ -21,11 +21,9 @@ import (
 // takes exactly one route) on World B.
 
 func init() {
-	real := []string{"route.Router x2 per node (real mux + middleware, in-process)", "collect.InMemCollector", "transmit.DirectTransmission x2 per node (real http.Client, zstd, msgpack)", "sharder.DeterministicSharder", "internal/peer.FilePeers / RedisPubsubPeers", "collect.StressRelief", "internal/health.Health", "metrics.MultiMetrics", "sample.SamplerFactory", "internal/configwatcher.ConfigWatcher", "app.App", "facebookgo inject + startstop wiring as in cmd/refinery/main.go"}
-	stub := []string{"network (SimNet: peer HTTP and a fake Honeycomb API /1/batch, /1/auth)", "Redis (SimPubSub)", "clock (SimClock per node)", "config (MockConfig)", "SDK clients (simulated)", "gRPC listeners (not started)", "logger (NullLogger)"}
-	Register(&Check{ID: "C17", World: "B/cluster", Gen: genRoute("C17"), Run: runRoute, Real: real, Stub: stub,
+	Register(&Check{ID: "C17", World: "B/cluster", Gen: genRoute("C17"), Run: runRoute, Real: bReal, Stub: bStub,
 		OwnProbes: []string{"span_forwarded_one_hop", "span_owned_by_entry_node", "owner_agreement_checked_multi_node", "redis_peers"}})
-	Register(&Check{ID: "C19", World: "B/cluster", Gen: genRoute("C19"), Run: runRoute, Real: real, Stub: stub,
+	Register(&Check{ID: "C19", World: "B/cluster", Gen: genRoute("C19"), Run: runRoute, Real: bReal, Stub: bStub,
 		OwnProbes: []string{"span_forwarded_one_hop", "non_trace_event_direct", "probe_discarded", "forwarded_content_checked", "event_on_peer_listener"}})
 }
 
